@@ -266,6 +266,7 @@ COORD_NAME_SETS = [
     ("x", "y", "z"),
     ("E", "time", "err"),
     ("x", "xy", "x_y"),
+    ("xy", "x", "xyz"),      # a later coordinate whose name is a prefix of an earlier one
 ]
 ERROR_SUFFIXES = ["", "_low", "_high"]
 
